@@ -26,6 +26,16 @@ CHECKS = {
         note="Trusted: vk/canon.py canonicalisation; values are those the interpreter itself builds from literals or "
              "injected numpy objects; dictionaries nested inside lists/dictionaries are outside the stated domain.",
         design="3/C11"),
+    "C12": dict(
+        category="exploration",
+        technique="exhaustive small-alphabet enumeration + token-level mutation fuzzing of the .kg corpus + generated long inputs, under a deterministic sys.settrace work budget; parse-twice structural differential",
+        text="Every string of length<=3 over the token alphabet and every short multi-character-token string is parsed "
+             "(exhaustive), plus Hypothesis-chosen single/double token edits of the repository's .kg corpus lines and generated long "
+             "nestings. Each parse must finish (or raise) within the fixed polynomial line-event budget, re-parse to a structurally "
+             "identical program, leave variables untouched and evaluate identically. Exhaustive for the small space, exploration beyond.",
+        note="Trusted: line events inside parser.py/interpreter.py as the work measure; B(n)=20000+2000n+20n^2; evaluation is "
+             "compared only for programs without system functions; address-free reprs patched onto parser objects (display only).",
+        design="3/C12"),
 }
 
 NOT_APPLICABLE = {
